@@ -39,7 +39,8 @@ class C05(Prop):
     translators = ['eatloop']      # regenerated from the source on every run (harness/translate.py)
     pid = "C05"
     sources = ["socialchoicekit/randomized_allocation.py"]
-    groups = {"eat": Group("eat", "From SCK Require Import Argsort RunEat.", "RunEat.eat_case", "RunEat.chk_eat")}
+    groups = {"eat": Group("eat", "From SCK Require Import Argsort RunEat.", "RunEat.eat_case", "RunEat.chk_eat"),
+              "eatok": Group("eatok", "From SCK Require Import Argsort RunEat.", "RunEat.eat_case", "RunEat.chk_eat_ok")}      # informational (coq_info)
     rule = ("exhaustive: all strict complete profiles with n<=3 (1+4+216) x speed vectors {equal, (1,2,3), (1/2,1/3,1), ...}; random profiles up to n=7 (quick) / 8 (thorough) with "
             "equal, integer and fractional speeds (also stored as float32/float16/integer arrays, exactly); both entry points (SimultaneousEating.bistochastic, ProbabilisticSerial.bistochastic); int and float rank dtypes. "
             "Each float result is compared entrywise within 1e-7 with the exact model inside Coq and with an independent exact simulation. Non-trivial = n >= 2; distinct by input hash")
@@ -162,6 +163,11 @@ class C05(Prop):
         P = cl([cl(["(Some %s)" % cn(x - 1) for x in row]) for row in case["P"]])
         sp = cl([cq(Fraction(float(Fraction(s)))) for s in case["speeds"]])
         return ("eat", ct(P, sp, cl([cl([cq(frac(x)) for x in row]) for row in obs["X"]])))
+
+    def coq_info(self, case, obs):
+        """the hypothesis of gen_eat_is_model (EatSnap.run_ok_b) evaluated by the kernel on the same literal"""
+        lit = self.coq(case, obs)
+        return None if lit is None else ("eatok", lit[1])
 
     def nontrivial(self, case, obs):
         return len(case["P"]) >= 2
